@@ -394,7 +394,7 @@ func MarshalFrame(f *File, m *descriptor.Message) {
 			if !s.IsMultiplexed {
 				continue
 			}
-			f.P("if m.", signalField(mux), " == ", s.MultiplexerValue, " {")
+			f.P("if m.", signalField(mux), " == ", multiplexerValue(mux, s), " {")
 			f.P(
 				"md.", s.Name, ".Marshal", signalSuperType(s), "(&f.Data, ", signalPrimitiveSuperType(s),
 				"(m.", signalField(s), "))",
@@ -459,7 +459,7 @@ func UnmarshalFrame(f *File, m *descriptor.Message) {
 			if !s.IsMultiplexed {
 				continue
 			}
-			f.P("if m.", signalField(mux), " == ", s.MultiplexerValue, " {")
+			f.P("if m.", signalField(mux), " == ", multiplexerValue(mux, s), " {")
 			f.P("m.", signalField(s), " = ", signalType(m, s), "(md.", s.Name, ".Unmarshal", signalSuperType(s), "(f.Data))")
 			f.P("}")
 		}
@@ -810,6 +810,14 @@ func hasPhysicalRepresentation(s *descriptor.Signal) bool {
 		hasConstrainedRange = s.Min > 0 || s.Max < float64(s.MaxUnsigned())
 	}
 	return hasScale || hasOffset || hasRange && hasConstrainedRange
+}
+
+// multiplexerValue returns the Go literal that the multiplexer signal is compared with to select s.
+func multiplexerValue(mux, s *descriptor.Signal) interface{} {
+	if mux.Length == 1 {
+		return s.MultiplexerValue == 1 // 1-bit multiplexers are bools
+	}
+	return s.MultiplexerValue
 }
 
 func hasCustomType(s *descriptor.Signal) bool {
